@@ -29,6 +29,7 @@ func C18(r *core.Run) {
 	kindAccessorAgreement(r)
 	reflectionGuards(r)
 	recursionGuards(r)
+	accumulatorThreading(r, "lib/j5schema", "lib/j5reflect")
 	// every proto kind the reflector accepts is dispatched somewhere; the rest reach the error default
 	rules.TypeSwitchCovers(r, "lib/j5reflect", "newMessageFieldFactory", core.Module+"/lib/j5schema", "FieldSchema", map[string]string{
 		"ArrayField":   "not a valid item schema: reaches the default arm, which returns an error",
@@ -262,4 +263,127 @@ func reflectionGuards(r *core.Run) {
 		o.Fail("isOneofWrapper no longer checks all fields of the message: a message with ordinary fields next to a oneof named 'type' is reflected as a oneof, and the codec then fails on populated messages (multiple values set)")
 	}
 	_ = fmt.Sprintf
+}
+
+// accumulatorThreading (R-FLOW/acc): a function that carries an accumulated
+// path (a slice parameter it reads) and calls itself must hand the callee a
+// value built from that parameter — append(p, …), p[k:], a local defined from
+// p — and not a fresh path. A recursion through flattened objects that passes
+// only the current field's number records proto paths relative to the wrong
+// message from the second level on.
+func accumulatorThreading(r *core.Run, rels ...string) {
+	r.Rule("R-FLOW/acc", "at every direct self-recursive call, the argument in the position of a slice parameter that the function reads is built from that parameter (mentions it, or a local defined from it); passing an unrelated slice restarts the accumulated path at each level")
+	n := 0
+	for _, rel := range rels {
+		pk := r.P.Pkg(rel)
+		if pk == nil {
+			r.Fatal("anchor: package %s not found", rel)
+			continue
+		}
+		info := pk.TypesInfo
+		core.AllFuncDecls(pk, func(fd *ast.FuncDecl) {
+			self := info.Defs[fd.Name]
+			if self == nil || fd.Type.Params == nil {
+				return
+			}
+			// slice parameters by position
+			type param struct {
+				obj types.Object
+				pos int
+			}
+			var params []param
+			i := 0
+			for _, f := range fd.Type.Params.List {
+				names := f.Names
+				if len(names) == 0 {
+					i++
+					continue
+				}
+				for _, nm := range names {
+					if _, isSlice := info.TypeOf(f.Type).Underlying().(*types.Slice); isSlice {
+						if _, variadic := f.Type.(*ast.Ellipsis); !variadic {
+							params = append(params, param{info.Defs[nm], i})
+						}
+					}
+					i++
+				}
+			}
+			if len(params) == 0 {
+				return
+			}
+			mentions := func(e ast.Expr, obj types.Object, depth int) bool {
+				found := false
+				var visit func(e ast.Expr, depth int)
+				visit = func(e ast.Expr, depth int) {
+					ast.Inspect(e, func(x ast.Node) bool {
+						id, ok := x.(*ast.Ident)
+						if !ok {
+							return true
+						}
+						o := info.Uses[id]
+						if o == obj {
+							found = true
+						} else if v, isVar := o.(*types.Var); isVar && depth < 3 && v.Parent() != pk.Types.Scope() {
+							// a local defined exactly once (:=) from an expression that mentions the parameter
+							var defs []ast.Expr
+							other := 0
+							ast.Inspect(fd.Body, func(y ast.Node) bool {
+								switch as := y.(type) {
+								case *ast.AssignStmt:
+									for k, l := range as.Lhs {
+										if li, ok := l.(*ast.Ident); ok && (info.Defs[li] == o || info.Uses[li] == o) {
+											if as.Tok != token.DEFINE {
+												other++
+											} else if len(as.Rhs) == len(as.Lhs) {
+												defs = append(defs, as.Rhs[k])
+											} else if len(as.Rhs) == 1 {
+												defs = append(defs, as.Rhs[0])
+											}
+										}
+									}
+								case *ast.RangeStmt:
+									for _, l := range []ast.Expr{as.Key, as.Value} {
+										if li, ok := l.(*ast.Ident); ok && info.Defs[li] == o {
+											other++
+										}
+									}
+								}
+								return true
+							})
+							if len(defs) == 1 && other == 0 {
+								visit(defs[0], depth+1)
+							}
+						}
+						return true
+					})
+				}
+				visit(e, depth)
+				return found
+			}
+			ast.Inspect(fd.Body, func(nd ast.Node) bool {
+				c, ok := nd.(*ast.CallExpr)
+				if !ok {
+					return true
+				}
+				if fn := core.CalleeFunc(info, c); fn == nil || types.Object(fn) != self {
+					return true
+				}
+				for _, p := range params {
+					if p.pos >= len(c.Args) {
+						continue
+					}
+					// is the parameter read at all (other than in this call)?
+					n++
+					o := r.Add("R-FLOW/acc", fmt.Sprintf("%s.%s | recursive call, parameter %s ← %s", rel, core.FuncName(fd), p.obj.Name(), core.ExprStr(c.Args[p.pos])), c.Pos(), "accumulated slice handed to the recursive call")
+					if mentions(c.Args[p.pos], p.obj, 0) {
+						o.Auto("built from the parameter %s", p.obj.Name())
+					} else if !r.Table("sym_sites", o) {
+						o.Fail("the recursive call passes %s, which does not involve its own %s: whatever was accumulated so far (outer proto path, prefix) is dropped from the second level of nesting on", core.ExprStr(c.Args[p.pos]), p.obj.Name())
+					}
+				}
+				return true
+			})
+		})
+	}
+	r.Analysed["self_recursive_slice_arguments"] = n
 }
